@@ -122,7 +122,7 @@ type c12Call struct {
 	Expected string
 }
 
-var c12Scripts = []string{"inorder", "reversed-one-write", "late-within", "late-after-deadline", "duplicated", "unknown-serial-first", "never", "mixed", "reuse-object"}
+var c12Scripts = []string{"inorder", "reversed-one-write", "late-within", "late-after-deadline", "duplicated", "unknown-serial-first", "never", "mixed", "reuse-object", "sub-packaged-response"}
 
 type c12Scenario struct {
 	Script    string `json:"terminal_script"`
@@ -309,6 +309,30 @@ func c12Run(srv *svc.Server, sc c12Scenario, r *core.Rand) (viol [][2]string, in
 					answer(s)
 				case "never":
 					traffic()
+				case "sub-packaged-response":
+					// the response travels as 2..3 sub-packages (a long parameter or resource list does), with ordinary traffic
+					// between the parts; it is matched once reassembled
+					id, body := c12Response(s.cmd, s.pserial, uint32(s.tag))
+					n := 2 + int(s.tag)%2
+					if n > len(body) {
+						n = len(body)
+					}
+					base := uint16(0x6000 + respSerial.Add(4))
+					ts.mu.Lock()
+					s.respID, s.resp = id, body
+					ts.mu.Unlock()
+					for k := 1; k <= n; k++ {
+						part := body[(k-1)*len(body)/n : k*len(body)/n]
+						if k == n {
+							ts.mu.Lock()
+							s.respAt = time.Now()
+							ts.mu.Unlock()
+						}
+						t.Write(t.SubFrame(id, base+uint16(k), uint16(n), uint16(k), part))
+						if k < n {
+							traffic()
+						}
+					}
 				case "reuse-object":
 					// the caller re-sends the SAME *ActiveMessage object: first command answered at once, the second one
 					// (flag bit 7 of the tag) only after 3/4 of the timeout, when a leftover timer of the first could hit it
@@ -502,8 +526,8 @@ func c12RespBody(frame []byte) (uint16, []byte) {
 }
 
 func c12Worker(c *core.Collector, x *Ctx) {
-	c.Rule = "scenarios: 1-4 terminals x 1-6 concurrent callers each x commands {8103,8104,8801,9101,9102,9205,9206} x timeout {30 ms..2 s} x terminal script {in order, reversed in one write, late within the timeout, late after the deadline, duplicated, unknown serial first, never, mixed}, " +
-		"with heartbeats / location reports interleaved, one terminal pre-rolled to the platform-serial wrap; seeded delay injection. evaluation = one SendActiveMessage call; distinct by (scenario parameters, yield trace hash)"
+	c.Rule = "scenarios: 1-4 terminals x 1-6 concurrent callers each x commands {8103,8104,8801,9101,9102,9205,9206} x timeout {30 ms..2 s} x terminal script {in order, reversed in one write, late within the timeout, late after the deadline, duplicated, unknown serial first, never, mixed, response sent as 2-3 sub-packages}, " +
+		"with heartbeats / location reports interleaved, terminals pre-rolled so that the commands' platform serials sit at the wrap, at 125/126 and at 0x7d00 / 0x7e7e (escaped serial bytes); seeded delay injection. evaluation = one SendActiveMessage call; distinct by (scenario parameters, yield trace hash)"
 	startProbe()
 	seed := c.Seed*1000 + uint64(x.Batch) + 500000
 	yielding := svc.YieldFromEnv(seed)
@@ -537,15 +561,19 @@ func c12Worker(c *core.Collector, x *Ctx) {
 	// serial wrap: first scenario of batch 0, alone, with delay injection switched off during the pre-roll
 	if x.Batch == 0 {
 		svc.YieldLevel.Store(0)
-		sc := c12Scenario{Script: "reversed-one-write", Terms: 1, Callers: 12, TimeoutMs: 2000, Base: 2900000, Traffic: true, PreRoll: 65530}
-		viol, incon, _, calls := c12Run(srv, sc, core.NewRand(c.Seed, "c12wrap", 0))
-		c.Evals(int64(len(calls)))
-		c.Count("wrap_scenarios", 1)
-		if incon {
-			c.Inconclusive()
-		}
-		for _, v := range viol {
-			c.Violate(v[0], v[1], sc)
+		// pre-rolled terminals: the commands get platform serials around the wrap (65530..), around 125/126 (low byte 7d / 7e:
+		// the serial is escaped on the wire) and around 0x7d00 / 0x7e7e (high byte, both bytes)
+		for wi, pre := range []int{65530, 119, 0x7d00 - 6, 0x7e7e - 6} {
+			sc := c12Scenario{Script: []string{"reversed-one-write", "inorder"}[wi%2], Terms: 1, Callers: 12, TimeoutMs: 2000, Base: 2900000 + wi*10, Traffic: true, PreRoll: pre}
+			viol, incon, _, calls := c12Run(srv, sc, core.NewRand(c.Seed, "c12wrap", uint64(wi)))
+			c.Evals(int64(len(calls)))
+			c.Count("wrap_scenarios", 1)
+			if incon {
+				c.Inconclusive()
+			}
+			for _, v := range viol {
+				c.Violate(v[0], v[1], sc)
+			}
 		}
 		svc.YieldLevel.Store(1)
 	}
